@@ -145,6 +145,31 @@ fn sweep_keys(max_len: usize) -> Vec<KeyCase> {
   out
 }
 
+/// claim names in common use elsewhere (JWT / OIDC / PASETO footers): none of them is reserved here
+const WELL_KNOWN: [&str; 40] = [
+  "kid", "wpk", "typ", "alg", "cty", "azp", "nonce", "scope", "scp", "roles", "groups", "email", "name", "auth_time", "acr", "amr", "sid", "cnf", "jwk", "x5t", "zip", "enc",
+  "iss2", "subject", "audience", "expires", "exp_", "not_before", "issued_at", "id", "uid", "tid", "oid", "ver", "client_id", "tenant", "data", "claims", "footer", "key",
+];
+
+/// every lower-case key of 1-3 letters (18 278) + the well-known names
+fn short_key_sweep() -> Vec<KeyCase> {
+  let mut out = vec![];
+  let letters: Vec<char> = ('a'..='z').collect();
+  for a in &letters {
+    out.push(KeyCase { key: a.to_string(), through_token: false });
+    for b in &letters {
+      out.push(KeyCase { key: format!("{a}{b}"), through_token: false });
+      for c in &letters {
+        out.push(KeyCase { key: format!("{a}{b}{c}"), through_token: false });
+      }
+    }
+  }
+  for k in WELL_KNOWN {
+    out.push(KeyCase { key: k.to_string(), through_token: true });
+  }
+  out
+}
+
 fn decorated_key() -> BoxedStrategy<KeyCase> {
   let base = any::<u16>().prop_map(|i| RESERVED[pick(i, 7)].to_string());
   prop_oneof![
@@ -162,9 +187,14 @@ fn decorated_key() -> BoxedStrategy<KeyCase> {
       10 => format!("{ch}{k}"),
       _ => k.chars().rev().collect(),
     }),
-    1 => base,
+    1 => base.clone(),
     2 => gen::unicode(8),
     1 => gen::json_key(),
+    // very long keys that start or end with a reserved key (not reserved themselves)
+    1 => (base, any::<u16>(), any::<bool>()).prop_map(|(k, i, front)| {
+      let n = [255usize, 256, 65535, 65536, 70_000][pick(i, 5)];
+      if front { format!("{k}{}", "x".repeat(n)) } else { format!("{}{k}", "x".repeat(n)) }
+    }),
   ]
   .prop_map(|key| KeyCase { key, through_token: true })
   .boxed()
@@ -252,7 +282,8 @@ impl Sub for TimeCtors {
 fn rfc3339_text() -> BoxedStrategy<String> {
   (0i64..=9999, 1u32..=12, 1u32..=28, 0u32..24, 0u32..60, prop_oneof![9 => 0u32..60, 1 => Just(60u32)], proptest::collection::vec(0u8..10, 0..=30), prop_oneof![Just(None), (-1439i32..=1439).prop_map(Some)])
     .prop_map(|(y, mo, d, h, mi, se, frac, off)| {
-      let mut s = format!("{:04}-{:02}-{:02}T{:02}:{:02}:{:02}", y, mo, d, h, mi, if se == 60 && !(h == 23 && mi == 59) { 59 } else { se });
+      // RFC 3339 allows :60 at any local time (a leap second is 23:59:60Z, i.e. another wall-clock time elsewhere)
+      let mut s = format!("{:04}-{:02}-{:02}T{:02}:{:02}:{:02}", y, mo, d, h, mi, se);
       if !frac.is_empty() {
         s.push('.');
         for dgt in frac {
@@ -292,15 +323,17 @@ fn not_a_date() -> BoxedStrategy<String> {
 }
 
 pub fn subs() -> Vec<Box<dyn DynSub>> {
-  vec![Box::new(ReservedKeys { kind: "alphabet-sweep" }), Box::new(ReservedKeys { kind: "decorated" }), Box::new(TimeCtors)]
+  vec![Box::new(ReservedKeys { kind: "alphabet-sweep" }), Box::new(ReservedKeys { kind: "short-lowercase-sweep" }), Box::new(ReservedKeys { kind: "decorated" }), Box::new(TimeCtors)]
 }
 
 pub fn run(ctx: &Ctx) -> EvidenceMeta {
   let sweep = ReservedKeys { kind: "alphabet-sweep" };
   let decorated = ReservedKeys { kind: "decorated" };
+  let short = ReservedKeys { kind: "short-lowercase-sweep" };
   let tc = TimeCtors;
   let jobs: Vec<Job> = vec![
     Box::new(|| ctx.enumerate(&sweep, sweep_keys(4).into_iter(), true)),
+    Box::new(|| ctx.enumerate(&short, short_key_sweep().into_iter(), true)),
     Box::new(|| ctx.prop(&decorated, decorated_key(), ctx.n(30_000, 300_000))),
     Box::new(|| ctx.prop(&tc, (rfc3339_text(), any::<u8>()).prop_map(|(text, b)| TimeCtorCase { text, valid: true, through_token: b % 8 == 0 }), ctx.n(30_000, 300_000))),
     Box::new(|| ctx.prop(&tc, not_a_date().prop_map(|text| TimeCtorCase { text, valid: false, through_token: false }), ctx.n(20_000, 200_000))),
@@ -318,7 +351,7 @@ pub fn run(ctx: &Ctx) -> EvidenceMeta {
   ];
   run_jobs(jobs);
   EvidenceMeta {
-    rule: "custom-claim keys: every string of length <= 4 over the 16-symbol alphabet {letters of iss/sub/aud/exp/nbf/iat/jti, 'E', space, NUL} (69,905 keys, exhaustive) and generated case/whitespace/NUL/combining-mark/BOM decorations of the reserved keys and random Unicode keys, \
+    rule: "custom-claim keys: every string of length <= 4 over the 16-symbol alphabet {letters of iss/sub/aud/exp/nbf/iat/jti, 'E', space, NUL} (69,905 keys, exhaustive), every lower-case key of 1-3 letters (18,278, exhaustive), 40 claim names in common use elsewhere, and generated case/whitespace/NUL/combining-mark/BOM decorations of the reserved keys and random Unicode keys, \
            each through the three constructor forms (&str; (&str, T); (String, T)) with T in {&str, i64, bool, Vec, struct, serde_json::Value, Option}; oracle: Err(Reserved(k)) iff the key is exactly one of the seven, otherwise Ok with get_key() unchanged, and (sampled) the value arrives under that key through a built token. \
            time claims: generated RFC 3339 date-times (upper-case T/Z or numeric offset, years 0000-9999, 0-30 fraction digits, leap seconds) into the &str and String forms of ExpirationClaim/NotBeforeClaim/IssuedAtClaim: Ok, stored verbatim, verbatim in the token payload; \
            strings whose first four characters are not all ASCII digits and that do not begin with a sign: Err(RFC3339Date). Non-trivial = key within edit distance 1 of a reserved key, or a time string with an offset/fraction or from the must-reject domain; distinct by input."
